@@ -154,6 +154,12 @@ def main(run, replay=None):
         c = replay["case"]
         if c.get("kind") == "spline":
             return splinerun.replay_spline(run, "C19", c)
+        if c.get("kind") == "reload_converted":
+            from vcore import reload as RL
+
+            for r in RL.replay(run, c):
+                run.violation({"kind": "reload_converted", "model": c["name"]}, "replayed: " + r, c)
+            return
         for f in zoo_task([c["name"]])["fails"]:
             run.violation({"kind": "zoo", "name": c["name"], "clause": f["clause"]}, "replayed: " + f["detail"], c)
         return
@@ -176,8 +182,20 @@ def main(run, replay=None):
             continue
         seen.add(key)
         run.violation({"kind": "zoo", "name": f["name"], "clause": f["clause"], "mode": f["mode"]}, f["detail"], {k: v for k, v in f.items() if k != "detail"})
+    # the protocols of spec/Reload.tla that end in a conversion to double precision: a model that was loaded, used
+    # in evaluation mode (caches filled in float32) and then converted must behave like its own copy converted
+    # from empty caches
+    from vcore import reload as RL
+
+    seen = set()
+    for f in RL.run_leg(run, converted=True):
+        if f["name"] in seen:
+            continue
+        seen.add(f["name"])
+        run.violation({"kind": "reload_converted", "model": f["name"], "used_after": f["proto"]["used_after"]}, f["detail"], {k: v for k, v in f.items() if k != "detail"})
     run.exhaustive = True
     run.assumptions = [
+        "conversion protocols (Reload.tla): 1152 histories that end in .double(); quick tier 6 per model, thorough 60; agreement within 1e-4 with the model's own copy converted from empty weight caches, same dtypes, neither raises",
         "moderate magnitude = inputs within +-15 (elementwise maps), randn x4 / +6 offsets, training batches 20 + 0.05 randn; cases where float64 itself is non-finite are not moderate and are skipped",
         "tolerance 1e-4 relative on outputs, 2e-4 on log-dets (2e-3 for the quadratic / cubic spline inverses, which solve polynomials); off-lattice cancellation is only sampled",
     ]
